@@ -46,6 +46,24 @@ def main():
         rep.coverage["traces_validated_against_impl"] += tot["executions"]
     except vlib.EngineError as e:
         rep.engine_errors.append(str(e))
+    # the same harness in race mode: the verdict of the exploration above holds for data-race-free code only
+    # (an access outside the lock is not a scheduling point), so unordered accesses to the map are looked
+    # for in the same executions
+    try:
+        import racelib
+        rb = server_common.build(race=True)
+        rwork = os.path.dirname(rb)
+        rr = vlib.explore(rb, "c18-ringconc", -1, 20, cfg={"setters": "3"}, race=True, por=True, cache=False)
+        viol, honly, mx, eng = racelib.collect(rwork, "c18-ringconc")
+        for k in eng:
+            rep.engine_errors.append("race report inside the scheduler runtime itself (engine bug): " + k)
+        for sig, text in sorted(viol.items()):
+            if "turbotunnel.go" in sig or "clientIDMap" in sig:
+                rep.finding(sig, text.split("\n")[0] + " (the lookups of concurrent sessions are not ordered with the carriers' updates: a session can be given the slot's new contents)",
+                            {"harness": "c18-ringconc", "cfg": {"setters": "3"}, "kind": "race detector report", "report": text})
+        rep.coverage["concurrent_ring_race_mode"] = {"executions": rr["executions"], "exhaustive": rr["exhaustive"], "races_in_the_map": sorted(k for k in viol if "turbotunnel.go" in k or "clientIDMap" in k)}
+    except (vlib.EngineError, SystemExit) as e:
+        rep.engine_errors.append("race-mode pass: " + str(e))
     # attribution on the real stack: the sessions section of the C05 tier-2 harness (client address at
     # accept time and asked again later, carriers from different addresses)
     try:
